@@ -1,9 +1,9 @@
 CONSTANTS
-  NRows = 3
+  NRows = 2
   NCols = 2
   Kinds = {"ranked", "lru"}
-  Sizes = {2}
-  Mutexes = {FALSE, TRUE}
+  Sizes = {1}
+  Mutexes = {FALSE}
   FixDelta = TRUE
   FixBelow = TRUE
   FixTomb = TRUE
